@@ -5,6 +5,7 @@ package simapp
 import (
 	"encoding/json"
 	"fmt"
+	"strings"
 
 	cctptypes "github.com/circlefin/noble-cctp/x/cctp/types"
 	ftftypes "github.com/circlefin/noble-fiattokenfactory/x/fiattokenfactory/types"
@@ -95,6 +96,9 @@ func withSigner(o Op, signer, tag string) Op {
 // Environment toggles: natural failure causes, through the owning module's own Msg server.
 
 func (w *World) ApplyEnv(ctx sdk.Context, env string) error {
+	if strings.HasPrefix(env, "init-genesis-params:") {
+		return w.applyGenesisEnv(ctx, env)
+	}
 	var msg sdk.Msg
 	switch env {
 	case "ftf-pause":
@@ -111,6 +115,8 @@ func (w *World) ApplyEnv(ctx sdk.Context, env string) error {
 		msg = &cctptypes.MsgPauseBurningAndMinting{From: w.CctpOwner.String()}
 	case "hyp-unroll-1":
 		msg = &warptypes.MsgUnrollRemoteRouter{Owner: w.Alice.String(), TokenId: w.TokenT0, ReceiverDomain: 1}
+	case "genesis-roundtrip":
+		return w.applyGenesisEnv(ctx, env)
 	case "seed-stats-top":
 		// A state reachable through genesis import (statistics continue from imported totals, C17):
 		// route (IBC channel-1 -> INTERNAL noble, uusdc) starts 10 below the top of the 256-bit range.
